@@ -88,8 +88,15 @@ inductive MOp where
   | ret
   /-- RESUME label (with an error recorded): back to the heights at the OUTERMOST call in progress,
   then (1a4d83d) down to the frames of the FOR loops that enclose the label: `fd` is the label's FOR
-  depth as the generator passes it in `label_depths` (`none`: no entry for the target address) -/
+  depth as the generator passes it in `label_depths` (`none`: no entry for the target address),
+  counted from the height recorded by the innermost GOSUB still pending (26672d3: a routine runs on
+  top of the frames of the code that issued the GOSUB), from 1 when none is pending -/
   | leave (fd : Option Nat)
+  /-- an instruction fails and the error is handed to the ON ERROR GOTO handler: the height is
+  recorded (`last_error_marks`, dee4bd6) and the handler gets a frame of its own (df9ea58) -/
+  | raise
+  /-- RESUME / RESUME NEXT (with an error recorded): back to the height recorded at the dispatch -/
+  | resume
   /-- `GoSub` (8f09b9b): the height of the register stack is recorded -/
   | gosub
   /-- `Return` with a GOSUB pending: back to the height recorded by that GOSUB -/
@@ -101,24 +108,33 @@ structure MSt where
   st : List Frame
   marks : List (Nat × Nat)
   gos : List Nat
+  /-- the height recorded when the most recent error was handed to a handler -/
+  errH : Nat
   deriving DecidableEq, Repr
 
 /-- `Vec::truncate(n)` on a stack kept most-recent-first: the oldest `n` entries remain -/
 def keepOldest (n : Nat) (l : List Nat) : List Nat := l.drop (l.length - n)
 
+/-- the height a label's FOR depth is counted from: the one recorded by the innermost pending GOSUB -/
+def gosubBase : List Nat → Nat
+  | h :: _ => h
+  | [] => 1
+
 def stepM (s : MSt) : MOp → MSt
   | .op o => { s with st := apply s.st o }
   | .call => { s with marks := (s.st.length, s.gos.length) :: s.marks }
   | .ret => match s.marks with
-    | (m, g) :: rest => { st := s.st.take m, marks := rest, gos := keepOldest g s.gos }
+    | (m, g) :: rest => { s with st := s.st.take m, marks := rest, gos := keepOldest g s.gos }
     | [] => s
   | .leave fd =>
     let s1 : MSt := match s.marks.getLast? with
-      | some (m, g) => { st := s.st.take m, marks := [], gos := keepOldest g s.gos }
+      | some (m, g) => { s with st := s.st.take m, marks := [], gos := keepOldest g s.gos }
       | none => { s with marks := [] }
     match fd with
-    | some d => { s1 with st := s1.st.take (1 + d) }
+    | some d => { s1 with st := s1.st.take (gosubBase s1.gos + d) }
     | none => s1
+  | .raise => { s with st := s.st ++ [Frame.fresh], errH := s.st.length }
+  | .resume => { s with st := s.st.take s.errH }
   | .gosub => { s with gos := s.st.length :: s.gos }
   | .gret => match s.gos with
     | h :: rest => { s with st := s.st.take h, gos := rest }
@@ -127,7 +143,7 @@ def stepM (s : MSt) : MOp → MSt
 def runM (s : MSt) (ops : List MOp) : MSt := ops.foldl stepM s
 
 /-- the interpreter's initial state: `[Registers::new()]`, no call in progress, no GOSUB pending -/
-def MSt.init : MSt := ⟨[Frame.fresh], [], []⟩
+def MSt.init : MSt := ⟨[Frame.fresh], [], [], 0⟩
 
 /-- heights of the stack before each of a sequence of executed instructions -/
 def depths : MSt → List MOp → List Nat
